@@ -5,7 +5,7 @@ from __future__ import annotations
 import ast
 
 from ..core.cfg import CFG
-from ..core.repo import (AnalysisError, Repo, call_name, calls_in, definitions, dotted, is_const,
+from ..core.repo import (AnalysisError, Repo, call_name, calls_in, definitions, dotted, func_params, is_const,
                          kwarg, names_in, unparse, walk_no_nested_defs)
 from ..domains.algnf import NotArithmetic, Rat, from_ast
 
@@ -231,6 +231,17 @@ def run(check, repo: Repo) -> None:
     a0 = [unparse(a) for a in bc[0].args[:2]]
     check.decide(a0 == ["self.dset.num_gpts", "self.batch_size"], "C09-R4", "Ptychography.reconstruct: batcher covers all patterns with the configured batch size",
                  str(a0), pmod.line(bc[0]), fail_detail=f"SimpleBatcher({a0})")
+    # the generator object handed to the batcher is the one installed by the reset: the reset replaces self.rng, so a batcher built
+    # before `if reset: self.reset_recon()` keeps the old, already advanced generator
+    reccfg = CFG(rec)
+    bn = reccfg.node_containing(bc[0])
+    resets = [n for c in calls_in(rec) if (call_name(c) or "") == "self.reset_recon" for n in reccfg.node_containing(c)]
+    if not bn or not resets:
+        raise AnalysisError("Ptychography.reconstruct: batcher construction / reset_recon call has no CFG node")
+    late_reset = [r for r in resets if r in reccfg.reachable_from(bn[0]) and r != bn[0]]
+    check.decide(not late_reset, "C09-R4", "Ptychography.reconstruct: the batcher is built after the reset has (re)installed the generator", "", pmod.line(bc[0]),
+                 fail_detail=f"self.reset_recon() (line {reccfg.nodes[late_reset[0]].lineno if late_reset else '?'}) runs after SimpleBatcher(rng=self.rng) was built: the batcher keeps the "
+                             f"previous, already advanced generator and the shuffle order after a reset no longer restarts from the seed")
     # reset path
     bmod, rr = repo.func(f"{PB}:PtychographyBase.reset_recon")
     rcfg = CFG(rr)
@@ -262,6 +273,24 @@ def run(check, repo: Repo) -> None:
     _, setter = repo.func(f"{RNG}:RNGMixin.rng@setter")
     ok = any(call_name(c) == "self._update_torch_rng" for c in calls_in(setter))
     check.decide(ok, "C09-R4", "RNGMixin.rng setter refreshes the torch generator", "", rmod.line(setter), fail_detail="the rng setter does not call _update_torch_rng")
+
+    # ---- R6 sibling agreement of the per-model dispatchers ------------------------------------------
+    PO = "quantem.diffractive_imaging.ptychography_opt"
+    omod_, _ = repo.cls(f"{PO}:PtychographyOpt")
+    fam = {"step_optimizers": "step_optimizer", "zero_grad_all": "zero_optimizer_grad", "step_schedulers": "step_scheduler", "set_schedulers": "set_scheduler"}
+    models = {}
+    for meth, callee in fam.items():
+        _, f_ = repo.func(f"{PO}:PtychographyOpt.{meth}")
+        check.analysed(f"{PO}:PtychographyOpt.{meth}")
+        models[meth] = sorted({unparse(c.func.value) for c in calls_in(f_) if isinstance(c.func, ast.Attribute) and c.func.attr == callee})
+    ref = models["step_optimizers"]
+    check.floor("models stepped by step_optimizers", len(ref), 3)
+    for meth in ("zero_grad_all", "step_schedulers", "set_schedulers"):
+        _, f_ = repo.func(f"{PO}:PtychographyOpt.{meth}")
+        check.decide(models[meth] == ref, "C09-R6", f"PtychographyOpt.{meth} dispatches to the same models as step_optimizers", str(models[meth]), omod_.line(f_),
+                     fail_detail=f"{meth} reaches {models[meth]}, step_optimizers steps {ref}: " +
+                     ("gradients of a stepped model are never cleared and accumulate across batches — the mean of per-batch gradients no longer equals the full-batch gradient"
+                      if meth == "zero_grad_all" else "a model's scheduler is not handled like its optimizer"))
 
     # ---- R5 loss scaling ------------------------------------------------------------------------
     _, ee = repo.func(f"{PB}:PtychographyBase.error_estimate")
